@@ -140,7 +140,7 @@ impl SubCheckT for Hist {
     const NAME: &'static str = "history";
     const RULE: &'static str = "random vtree over 1..6 variables (right-linear, left-linear, balanced, random splits; random leaf order) x compression on (<=6 variables) / off (<=4 variables, <=24 ops) x unique tables default or 1..32 slots x <=40 operations (literals, not, and, or, xor, iff, ite, condition, exists, compose): every returned SDD is read element by element (prime/sub pairs, binary nodes, complement bits) into a truth table and compared with the oracle; the pool is re-read at 3 checkpoints and at the end. Non-trivial: and/or applications with a decision-node operand and a non-constant second operand in >=2 of the four vtree relations (same node, left descendant, right descendant, independent), the relation being computed from the vtree shape";
     fn cases(tier: Tier) -> u32 {
-        tier.pick(4000, 150_000)
+        tier.pick(20_000, 250_000)
     }
     fn strategy(_tier: Tier) -> BoxedStrategy<Case> {
         case_strategy(40, false)
